@@ -1,7 +1,7 @@
 (* Entry points of the executable model, by name. One dispatcher so that the OCaml driver and
    the in-Coq case files need no per-function glue. *)
 From Coq Require Import ZArith NArith List String Bool.
-From Sia Require Import Prim.Result Prim.Tok Currency.Model Merkle.Tree Merkle.Forest Merkle.Acc Merkle.Rhp Policy.Model.
+From Sia Require Import Prim.Result Prim.Tok Currency.Model Merkle.Tree Merkle.Forest Merkle.Acc Merkle.Rhp Policy.Model Pow.Model.
 Import ListNotations.
 Open Scope string_scope.
 Open Scope list_scope.
@@ -93,6 +93,36 @@ Section Dispatch.
       option_map (fun p => [TB (1%N :: enc_policy p)]) (run_parser (p_policy (List.length args)) args)
     else None.
 
+  (* ---- C13: proof of work ---- *)
+  Definition p_net : parser network :=
+    let* a := pZ in let* b := pZ in let* c := pZ in let* d := pZ in let* e := pZ in let* f := pZ in
+    let* g := pZ in let* h := pZ in let* i := pZ in let* j := pZ in
+    pret {| n_interval := a; n_oak_height := b; n_oak_fix := c; n_oak_genesis := d; n_asic_height := e;
+            n_asic_oaktime := f; n_asic_oaktarget := g; n_asic_nonce := h; n_v2_allow := i; n_v2_final := j |}.
+  Definition p_pstate : parser pstate :=
+    let* h := pZ in let* pv := prep 11 pZ in let* d := pZ in let* ct := pZ in let* ot := pZ in
+    let* tw := pZ in let* df := pZ in let* ow := pZ in let* otm := pZ in
+    pret {| p_height := h; p_prev := pv; p_depth := d; p_child_target := ct; p_oak_target := ot;
+            p_total_work := tw; p_difficulty := df; p_oak_work := ow; p_oak_time := otm |}.
+  Definition t_pstate (s : pstate) : list tok :=
+    TZ (p_height s) :: map TZ (p_prev s) ++ [TZ (p_depth s); TZ (p_child_target s); TZ (p_oak_target s);
+      TZ (p_total_work s); TZ (p_difficulty s); TZ (p_oak_work s); TZ (p_oak_time s)].
+  Definition api_c13 (name : string) (args : list tok) : option (list tok) :=
+    if name =? "c13.apply" then
+      option_map (fun '(net, s, g, ts, tgt) => tok_res unit_err t_pstate (apply_header net s g ts tgt))
+        (run_parser (let* net := p_net in let* s := p_pstate in let* g := pbool in let* ts := pZ in let* tgt := pZ in pret (net, s, g, ts, tgt)) args)
+    else if name =? "c13.validate" then
+      option_map (fun '(net, s, po, ts, nonce, id) => tok_res unit_err (fun z => [TZ z]) (validate_header net s po ts nonce id))
+        (run_parser (let* net := p_net in let* s := p_pstate in let* po := pbool in let* ts := pZ in let* nonce := pZ in let* id := pZ in
+                     pret (net, s, po, ts, nonce, id)) args)
+    else if name =? "c13.heavier" then
+      option_map (fun '(s, t) => tok_res unit_err (fun b => [tbool b]) (sufficiently_heavier s t))
+        (run_parser (let* s := p_pstate in let* t := p_pstate in pret (s, t)) args)
+    else if name =? "c13.powtarget" then
+      option_map (fun '(net, s) => tok_res unit_err (fun z => [TZ z]) (pow_target net s))
+        (run_parser (let* net := p_net in let* s := p_pstate in pret (net, s)) args)
+    else None.
+
   (* ---- C16: RHP Merkle ---- *)
   Definition p_action : parser action :=
     let* k := pnat in
@@ -161,11 +191,14 @@ Section Dispatch.
     match api_c14 name args with
     | Some r => r
     | None =>
+    match api_c13 name args with
+    | Some r => r
+    | None =>
     match name, args with
     | "hash", [TB b] => [TB (H b)]
     | "c05.run", _ => api_c05 args
     | "c05.leafhash", [TB e; TZ i; TZ s] => [TB (leaf_hash H (mkLeaf e (Z.to_N i) (negb (Z.eqb s 0))))]
     | "c05.proofroot", TB x :: TZ i :: ps => [TB (proofRootN H x (Z.to_N i) (List.concat (map (fun t => match t with TB b => [b] | _ => [] end) ps)))]
     | _, _ => bad_args
-    end end end end.
+    end end end end end.
 End Dispatch.
